@@ -10,7 +10,7 @@ from fractions import Fraction as Fr
 from common import *  # noqa
 
 PID = 'C15'
-T_CALL = 5.0
+T_CALL = 1.0
 
 # ------------------------------------------------------------------ oracles (no numpy matrix peeling here)
 
@@ -110,7 +110,7 @@ def run_job(job):
     bct = import_bct()
     kind, A, ks = job['kind'], job['A'], job['ks']
     n = len(A)
-    out = {'viol': [], 'lines': [], 'n': n, 'kind': kind, 'status': {}, 'nontrivial': [], 'evals': 0}
+    out = {'viol': [], 'lines': [], 'n': n, 'kind': kind, 'status': {}, 'nontrivial': [], 'evals': 0, 'timeouts': []}
     malformed = job.get('malformed', False)
 
     def st(s):
@@ -129,11 +129,11 @@ def run_job(job):
         for k in ks:
             A_in = Af.copy()
             r = call(f, A_in, k, True, t=T_CALL)
-            r2 = call(f, Af.copy(), k, t=T_CALL)
+            r2 = call(f, Af.copy(), k, t=T_CALL) if r[0] != 'timeout' else r
             out['evals'] += 1
             st(r[0])
             if r[0] == 'timeout' or r2[0] == 'timeout':
-                continue
+                out['timeouts'].append('%s k=%d' % (func, k)); break     # the model always terminates: reported by main()
             if r[0] == 'exc' or r2[0] == 'exc':
                 viol(func, 'raises', r[1] if r[0] == 'exc' else r2[1], None, k=k)
                 continue
@@ -210,7 +210,7 @@ def run_job(job):
             out['evals'] += 1
             st(r[0])
             if r[0] == 'timeout':
-                continue
+                out['timeouts'].append('%s s=%s' % (func, s)); break
             if r[0] == 'exc':
                 viol(func, 'raises', r[1], None, s=str(s)); continue
             M, sn = r[1]
@@ -246,7 +246,7 @@ def run_job(job):
     out['evals'] += 1
     st(r[0])
     if r[0] == 'timeout':
-        return out
+        out['timeouts'].append(func); return out
     if r[0] == 'exc':
         viol(func, 'raises', r[1], None); return out
     cor, kn = [int(x) for x in r[1][0]], [int(x) for x in r[1][1]]
@@ -353,34 +353,34 @@ def gen_jobs(rs, tier):
     # --- kcore_bu: all undirected n<=5 x all k (slice of n=5 in quick)
     for n in range(1, 6):
         N = 1 << (n * (n - 1) // 2)
-        for code in pick(rs, N, N if (th or n <= 4) else 300):
+        for code in pick(rs, N, N if (th or n <= 4) else 700):
             jobs.append({'kind': 'bu', 'A': und_from_bits(n, code), 'ks': list(range(0, n + 1))})
-    for _ in range(400 if th else 60):
+    for _ in range(1200 if th else 80):
         n = 6
         jobs.append({'kind': 'bu', 'A': rand_und(rs, n, rs.choice([.3, .5, .7, .9])), 'ks': list(range(0, n + 1))})
-    for _ in range(300 if th else 40):
+    for _ in range(1000 if th else 60):
         n = int(rs.randint(7, 13))
         jobs.append({'kind': 'bu', 'A': rand_und(rs, n, rs.choice([.2, .35, .5, .7])), 'ks': list(range(1, n + 1, 1 if n < 9 else 2))})
     # --- kcore_bd: all directed n<=4 x all k
     for n in range(1, 5):
         N = 1 << (n * (n - 1))
-        for code in pick(rs, N, N if (th or n <= 3) else 400):
+        for code in pick(rs, N, N if (th or n <= 3) else 1200):
             jobs.append({'kind': 'bd', 'A': dir_from_bits(n, code), 'ks': list(range(0, 2 * (n - 1) + 2))})
-    for _ in range(300 if th else 40):
+    for _ in range(1000 if th else 60):
         n = int(rs.randint(5, 7))
         jobs.append({'kind': 'bd', 'A': rand_dir(rs, n, rs.choice([.2, .4, .6, .85])), 'ks': list(range(0, 2 * n))})
-    for _ in range(200 if th else 30):
+    for _ in range(800 if th else 40):
         n = int(rs.randint(7, 11))
         jobs.append({'kind': 'bd', 'A': rand_dir(rs, n, rs.choice([.15, .3, .5, .7])), 'ks': list(range(1, 2 * n, 2 if n > 8 else 1))})
     # --- score_wu: dyadic weights, s on a grid containing every attained strength
     small_vals = ('1/2', '1', '3/2')
     for n in (2, 3, 4):
         N = 4 ** (n * (n - 1) // 2)
-        for code in pick(rs, N, N if (th or n <= 3) else 150):
+        for code in pick(rs, N, N if (th or n <= 3) else 500):
             A = und_from_bits(n, code, small_vals)
             jobs.append({'kind': 'wu', 'A': [[str(x) for x in r] for r in A], 'ks': [str(s) for s in s_grid([[Fr(x) for x in r] for r in A])]})
     wv = tuple(str(Fr(k, 4)) for k in range(1, 9))
-    for _ in range(250 if th else 40):
+    for _ in range(1000 if th else 60):
         n = int(rs.randint(5, 9))
         A = rand_und(rs, n, rs.choice([.3, .5, .8]), wv)
         grid = s_grid([[Fr(x) for x in r] for r in A])
@@ -390,16 +390,16 @@ def gen_jobs(rs, tier):
     # --- k-coreness
     for n in range(1, 6):
         N = 1 << (n * (n - 1) // 2)
-        for code in pick(rs, N, N if (th or n <= 4) else 250):
+        for code in pick(rs, N, N if (th or n <= 4) else 600):
             jobs.append({'kind': 'c-bu', 'A': und_from_bits(n, code), 'ks': []})
-    for _ in range(300 if th else 40):
+    for _ in range(1500 if th else 60):
         n = int(rs.randint(6, 12))
         jobs.append({'kind': 'c-bu', 'A': rand_und(rs, n, rs.choice([.2, .4, .6, .9])), 'ks': []})
     for n in range(1, 5):
         N = 1 << (n * (n - 1))
-        for code in pick(rs, N, N if (th or n <= 3) else 400):
+        for code in pick(rs, N, N if (th or n <= 3) else 1200):
             jobs.append({'kind': 'c-bd', 'A': dir_from_bits(n, code), 'ks': []})
-    for _ in range(200 if th else 30):
+    for _ in range(1500 if th else 60):
         n = int(rs.randint(5, 9))
         jobs.append({'kind': 'c-bd', 'A': rand_dir(rs, n, rs.choice([.15, .3, .5])), 'ks': []})
     # --- malformed stream (no claim; correspondence only): asymmetric / weighted / self-loops into the undirected routines
@@ -433,6 +433,7 @@ def main():
         jobs = gen_jobs(ck.rs, ck.tier)
     results = pmap(run_job, jobs)
     lines, exps, funcs = [], [], []
+    ntimeouts = 0
     for job, r in zip(jobs, results):
         ck.count('jobs:' + job['kind'] + (':malformed' if job.get('malformed') else ''))
         ck.count('n=%d' % r['n'])
@@ -442,6 +443,10 @@ def main():
                         samples=[{'kind': job['kind'], 'A': job['A'], 'ks': job['ks'][:8]}] if r['nontrivial'] else [])
         for func, pred, detail, cond in r['viol']:
             ck.violation(func, pred, detail, cond)
+        for t in r['timeouts']:
+            ntimeouts += 1
+            if ntimeouts <= 3:   # the model provably terminates (fuel n suffices), so a hang is a divergence from the model
+                ck.corr_break('bct routine hit the %.0f s watchdog although the Core model terminates' % T_CALL, {'job': job, 'call': t})
         for ln, ex, fn in r['lines']:
             lines.append(ln); exps.append(ex); funcs.append(fn)
     if ok:
